@@ -1,7 +1,7 @@
 (* C16 — returned schedules fit the accelerator template.
    Only theorem statements closed by `exact`/1-line combinations, each followed by Print Assumptions. *)
 From Snax Require Import Base.Prelude Model.C03Schedule Model.C03Yields Model.C16Matcher Model.C16Fits
-  Proofs.C03ScheduleProofs Proofs.C03BacktrackProofs Proofs.C16MatcherProofs Proofs.C16FitsProofs Proofs.C16ChecksProofs.
+  Proofs.C03ScheduleProofs Proofs.C03BacktrackProofs Proofs.C16MatcherProofs Proofs.C16FitsProofs Proofs.C16ChecksProofs Proofs.C16ElimProofs.
 
 (* FULL STATEMENT (refuted, finding F12):
      forall r yielded by scheduler_backtrack(T, s, 1, checks), fitsb matcher checks T r = true.
@@ -67,9 +67,23 @@ Theorem C16_span_cert_coordinates :
 Proof. exact span_cert_coordinates. Qed.
 Print Assumptions C16_span_cert_coordinates.
 
-(* COMPLETENESS of rowspace_eqb (every pair with equal row spaces is accepted) is NOT proved in general
-   (it needs the echelon invariant of the elimination); it rests on the L1 agreement with the SVD
-   implementation.  Proved instance: the zero space. *)
+(* The model's elimination maintains x = d*a - m.B with d <> 0 (induction over the basis and over the rows), so
+   every certificate it produces is valid: acceptance is exactly "the elimination reduces the row to zero". *)
+Theorem C16_elimination_certificates_valid :
+  forall B n, Forall (fun r => length r = n) B -> forall a d m, length a = n ->
+    find_coeffs B a = Some (d, m) -> cert_ok B a d m = true.
+Proof. exact find_coeffs_valid. Qed.
+Print Assumptions C16_elimination_certificates_valid.
+
+Theorem C16_row_in_span_iff :
+  forall B n, Forall (fun r => length r = n) B -> forall a, length a = n ->
+    (row_in_span B a = true <-> find_coeffs B a <> None).
+Proof. exact row_in_span_iff. Qed.
+Print Assumptions C16_row_in_span_iff.
+
+(* COMPLETENESS of rowspace_eqb (every pair with equal row spaces is accepted, i.e. a row of the span is always
+   reduced to zero) is NOT proved in general (it needs the echelon/triangularity argument over Q); it rests on the
+   L1 agreement with the SVD implementation.  Proved instance: the zero space. *)
 Theorem C16_rowspace_complete_partial :
   forall a, vzerob a = true -> row_in_span [] a = true.
 Proof. exact row_in_span_nil_zero. Qed.
